@@ -42,6 +42,10 @@ type prog struct {
 	Trailer bool
 	BigHead int // > 0: an application header value of that many bytes (response heads of 4..13 KiB)
 	Seed    uint64
+	// Reuse: the handler writes through one scratch buffer, flushes after every Write (as
+	// the chunked writer's contract demands before a buffer is touched again), refills it
+	// for the next Write and scribbles over it when it is done
+	Reuse bool
 }
 
 type shortReader struct {
@@ -187,6 +191,19 @@ func (st *state) handle(ctx *app.RequestContext) {
 	case "abortmsg":
 	case "setbodyraw":
 		ctx.Response.SetBodyRaw(b)
+	case "raw-append":
+		// a body handed over with SetBodyRaw and then extended with Write/AppendBody
+		k := len(b) / 2
+		ctx.Response.SetBodyRaw(b[:k])
+		if p.Seed%2 == 0 {
+			ctx.Write(b[k:])
+		} else {
+			ctx.Response.AppendBodyString(string(b[k:]))
+		}
+	case "chunkw-string":
+		// the chunked writer installed, the body set with the string setter
+		ctx.Response.HijackWriter(resp.NewChunkedBodyWriter(&ctx.Response, ctx.GetWriter()))
+		ctx.Response.SetBodyString(string(b))
 	case "append":
 		for _, n := range p.Writes {
 			if n < 0 {
@@ -215,6 +232,19 @@ func (st *state) handle(ctx *app.RequestContext) {
 			ctx.Response.Header.Trailer().Set("X-Tr", "tv")
 		}
 		ctx.Response.HijackWriter(resp.NewChunkedBodyWriter(&ctx.Response, ctx.GetWriter()))
+		scratch := make([]byte, 0, 16384)
+		write := func(piece []byte) {
+			if p.Reuse && len(piece) <= cap(scratch) {
+				// the chunked writer documents that it keeps the caller's buffer until the
+				// next successful flush: the handler flushes, then the buffer is its own
+				// again and is refilled for the next Write
+				scratch = append(scratch[:0], piece...)
+				ctx.Write(scratch)
+				ctx.Flush()
+				return
+			}
+			ctx.Write(piece)
+		}
 		for _, n := range p.Writes {
 			if n < 0 {
 				ctx.Flush()
@@ -223,16 +253,27 @@ func (st *state) handle(ctx *app.RequestContext) {
 			if n > len(b) {
 				n = len(b)
 			}
-			ctx.Write(b[:n])
+			write(b[:n])
 			b = b[n:]
 		}
-		if len(b) > 0 {
-			ctx.Write(b)
+		for len(b) > 0 {
+			n := len(b)
+			if p.Reuse && n > cap(scratch) {
+				n = cap(scratch)
+			}
+			write(b[:n])
+			b = b[n:]
+		}
+		if p.Reuse {
+			scratch = scratch[:cap(scratch)]
+			for i := range scratch {
+				scratch[i] = 0xEE
+			}
 		}
 	}
 }
 
-var modes = []string{"none", "setbody", "string", "data", "append", "stream-known", "stream-unknown", "stream-limited", "chunkw", "chunkw", "json", "redirect", "file", "abortmsg", "setbodyraw"}
+var modes = []string{"none", "setbody", "string", "data", "append", "stream-known", "stream-unknown", "stream-limited", "chunkw", "chunkw", "json", "redirect", "file", "abortmsg", "setbodyraw", "raw-append", "chunkw-string"}
 
 // files of the sizes the programs use, created once per worker process
 var fileDir string
@@ -292,7 +333,8 @@ func oneConn(w *mon.W, c *mon.Case, e *route.Engine, st *state, lb *loop.Server)
 				p.Writes = append(p.Writes, r.Int(1, 2, 100, 4095, 4096, 4097, 5000, 9000))
 			}
 		}
-		if p.Mode == "chunkw" && mustNoBody(p) {
+		p.Reuse = p.Mode == "chunkw" && r.Chance(3)
+		if (p.Mode == "chunkw" || p.Mode == "chunkw-string") && mustNoBody(p) {
 			p.Mode = "setbody" // documented exclusion
 		}
 		for k := r.Intn(3); k > 0; k-- {
@@ -448,7 +490,7 @@ func oneConn(w *mon.W, c *mon.Case, e *route.Engine, st *state, lb *loop.Server)
 }
 
 func describe(p prog) string {
-	return fmt.Sprintf("%s status=%d mode=%s size=%d writes=%v close=%v http10=%v ka10=%v trailer=%v bighead=%d hdrs=%v", p.Method, p.Status, p.Mode, p.Size, p.Writes, p.Close, p.HTTP10, p.KA10, p.Trailer, p.BigHead, p.Hdrs)
+	return fmt.Sprintf("%s status=%d mode=%s size=%d writes=%v close=%v http10=%v ka10=%v trailer=%v bighead=%d reuse-buffer=%v hdrs=%v", p.Method, p.Status, p.Mode, p.Size, p.Writes, p.Close, p.HTTP10, p.KA10, p.Trailer, p.BigHead, p.Reuse, p.Hdrs)
 }
 
 func trunc(s string, n int) string {
